@@ -130,6 +130,11 @@ impl Vm {
       }
       self.current_fun = current_fun;
       self.load_ip();
+    } else {
+      // nothing was left to run on a new fiber, a native or a class without an
+      // initializer has already been evaluated. Launch is a statement so the
+      // result is dropped like the compiler accounts for
+      self.fiber.drop();
     }
 
     ExecutionSignal::Ok
